@@ -7,8 +7,14 @@ Directed families (property quantifier + DESIGN §6 C09):
   k exhaustive (0..=BITS(e)) for 1-2 limb exponents, window-/limb-boundary values otherwise, k = 0;
   boxed inputs found by simulation whose accumulator is >= 2m at loop exit (both final subtractions needed);
   multi-exponentiation with arrays of 1..=3 and slices of 0..=5 terms;
-  lincomb with 1..=40 terms and moduli of 0..=63+ leading zero bits (several accumulation windows).
+  lincomb with 1..=40 terms and moduli of 0..=63+ leading zero bits (several accumulation windows);
+  nilpotent bases: non-squarefree moduli q^k, (p*q)^2 over 1, 2, 3+ limbs (and boxed precisions with zero high
+  limbs), non-zero bases divisible by every prime factor of m, exponents at / above the nilpotency index: the true
+  result is exactly 0 (the accumulator a non-zero multiple of m before the last reduction), for every pow form,
+  multi-exponentiation with factors multiplying to 0, and lincomb sums that are exactly 0 / exactly m;
+  c09.hook.*: the crate-internal functions on raw Montgomery-domain limbs (see hook_lines).
 """
+import random
 from .common import *
 
 RULE = ('operation lines from corpus + directed families (see tools/gen/c09.py docstring) + seeded structured random; '
@@ -16,7 +22,8 @@ RULE = ('operation lines from corpus + directed families (see tools/gen/c09.py d
         'Nat-level spec (L0); distinct = distinct lines, non-trivial = some operand token longer than 2 hex digits')
 ASSUMPTIONS = ['moduli are odd (Odd<_> is a precondition of every Montgomery parameter constructor)',
                'exponent_bits <= BITS(exponent) (larger values index past the exponent limbs: a panic, outside the property)',
-               'all terms of one call share one modulus / parameter set']
+               'all terms of one call share one modulus / parameter set',
+               'c09.hook.* lines call compute_powers, multi_exponentiate_montgomery_form_internal, one pass of impl_longa_monty_lincomb! (fixed and boxed) and the boxed pow_montgomery_form on raw Montgomery-domain limbs (unreduced values, arbitrary tables, arbitrary one / mod_neg_inv included) through crypto_bigint::verif_hooks']
 
 # exponent widths per base width — must match `impl_kind_all!` in harness/src/ops/c09.rs
 EXP_WIDTHS = {1: [1, 2, 4], 2: [1, 2, 4], 4: [1, 2, 4, 8], 8: [1, 4, 8, 16], 16: [1, 8, 16, 32]}
@@ -31,6 +38,7 @@ CONST_MODULI = [
     (4, 0x0fffffff00000000ffffffffffffffffbce6faada7179e84f3b9cac2fc632551),
     (8, (1 << 510) - 1),
     (16, (1 << 1023) + 1),
+    (1, ((1 << 32) - 5) ** 2), (2, 3 ** 80),            # non-squarefree (nilpotent bases exist)
 ]
 
 
@@ -196,7 +204,230 @@ def double_sub_inputs(rng, nl, want):
     return out
 
 
+# ---------------------------------------------------------------- crate-internal functions (verif_hooks)
+
+HOOK_WIDTHS = [1, 2, 3, 4, 8, 16]                      # `go!` in harness/src/ops/c09.rs::hook_dispatch
+HOOK_MULTI = [(1, 1), (1, 2), (2, 1), (2, 2), (3, 1), (4, 1), (4, 4), (4, 8), (8, 2)]
+
+
+def mparams(n, m):
+    """(one, mod_neg_inv) of the modulus: R mod m, -m^-1 mod 2^64"""
+    return (1 << (64 * n)) % m, (-pow(m, -1, 1 << 64)) % (1 << 64)
+
+
+def pow2_minus_c(rng, n):
+    """moduli of the form 2^k - c"""
+    bits = 64 * n
+    ks = {bits, bits - 1, bits - 2, bits - 5, max(2, bits - 63), max(2, bits - 64), max(2, 64 * (n - 1) + 1), max(2, rng.randrange(2, bits + 1))}
+    out = []
+    for k in sorted(ks):
+        for c in (1, 3, rng.choice([5, 19, 0xc5, 0x1000003d1, (1 << 32) + 977])):
+            m = (1 << k) - c
+            if m >= 1 and m % 2 == 1:
+                out.append(m)
+    return out
+
+
+def mont_table(n, m, xm):
+    """compute_powers as the contract describes it: Montgomery forms of X^0 .. X^15 for the Montgomery form xm"""
+    R = 1 << (64 * n)
+    X = xm * pow(R, -1, m) % m if m > 1 else 0
+    return [pow(X, j, m) * R % m for j in range(16)]
+
+
+def hook_lines(tier, rng):
+    q = tier == 'quick'
+    # ---- compute_powers: x in {0, 1~, m-1, unreduced, random}, canonical and arbitrary `one` / `k`
+    for n in HOOK_WIDTHS:
+        R = 1 << (64 * n)
+        ms = moduli(rng, n, 1) + pow2_minus_c(rng, n)
+        if q:
+            ms = rng.sample(ms, min(len(ms), 6 if n <= 4 else 2)) + [1]
+        for m in ms:
+            one, k = mparams(n, m)
+            xs = [0, 1 % R, one, m - 1, rng.randrange(m), rng.randrange(m)]
+            xs += [m % R, R - 1, rng.randrange(R)]                     # unreduced (mirror only)
+            if q and n >= 8:
+                xs = rng.sample(xs, 3)
+            for x in xs:
+                yield f'c09.hook.compute_powers {n} {hx(m)} {hx(one)} {hx(k)} {hx(x)}'
+            yield f'c09.hook.compute_powers {n} {hx(m)} {hx(rng.randrange(R))} {hx(k)} {hx(rng.randrange(m))}'
+            yield f'c09.hook.compute_powers {n} {hx(m)} {hx(one)} {hx(rng.getrandbits(64))} {hx(rng.randrange(m))}'
+    # ---- multi_exponentiate_montgomery_form_internal on caller-provided tables
+    for (n, ne) in HOOK_MULTI:
+        R = 1 << (64 * n)
+        ebits = 64 * ne
+        ms = moduli(rng, n, 1) + pow2_minus_c(rng, n)
+        for m in rng.sample(ms, min(len(ms), (3 if q else 8) if n <= 4 else 2)):
+            one, k = mparams(n, m)
+            for rep in range(4 if q else 12):
+                nterms = rng.choice([0, 1, 1, 2, 3])
+                kind = rng.choice(['power', 'power', 'arbitrary', 'distinct', 'unreduced'])
+                terms = []
+                for _ in range(nterms):
+                    if kind == 'power':
+                        t = mont_table(n, m, rng.choice([0, one, m - 1, rng.randrange(m)]))
+                    elif kind == 'arbitrary':
+                        t = [rng.randrange(m) for _ in range(16)]
+                    elif kind == 'distinct':                          # entry j = j+1: a wrong index is visible at once
+                        t = [(j + 1) % m for j in range(16)]
+                    else:
+                        t = [rng.randrange(R) for _ in range(16)]
+                    terms.append((t, rng.choice(exps(rng, ne, 1))))
+                tok = ';'.join(':'.join(hx(p) for p in t) + ',' + hx(e) for t, e in terms) if terms else '-'
+                ks = {1, 2, 3, 4, 5, 8, 63, 64, ebits, ebits - 1, ebits - 3, rng.randrange(1, ebits + 1)}
+                if ne > 1:
+                    ks |= {65, 68, 69, 128}
+                if nterms:
+                    ks |= {0, ebits + 1, ebits + 64}                 # index out of bounds: panic
+                ks = sorted(b for b in ks if (0 if nterms else 1) <= b <= ebits + 64 and (nterms or b <= ebits))
+                for bits in (rng.sample(ks, min(len(ks), 4)) if q else ks):
+                    yield f'c09.hook.multi_internal {n} {ne} {hx(m)} {hx(one)} {hx(k)} {bits} {tok}'
+    # ---- one pass of the Longa accumulation: up to and beyond 2^leading_zeros terms, moduli 2^k - c,
+    #      reduced and unreduced limbs; (u, hi_carry) unreduced
+    def longa_family(op, n):
+        R = 1 << (64 * n)
+        lzs = [0, 1, 2, 3, 5, rng.randrange(6, 40)] + ([64, 64 * n - 2] if n > 1 else [62])
+        cases = [(lz_modulus(rng, n, lz), lz) for lz in lzs if lz <= 64 * n - 1]
+        cases += [(m, 64 * n - m.bit_length()) for m in rng.sample(pow2_minus_c(rng, n), 3 if q else 8)]
+        for (m, lz) in cases:
+            _, k = mparams(n, m)
+            w = 1 << min(lz, 5)
+            cnts = {0, 1, 2, w, w + 1, 2 * w + 3, 40 if n <= 4 else 9}
+            if not q:
+                cnts |= {w - 1 if w > 1 else 3, 3 * w, 100 if n <= 2 else 17}
+            for t in sorted(cnts):
+                mode = rng.randrange(4)
+                ps = []
+                for _ in range(t):
+                    if mode == 0:
+                        ps.append((m - 1, m - 1))
+                    elif mode == 1:
+                        ps.append((R - 1, R - 1))                      # unreduced maximum: hi_carry well above 1
+                    elif mode == 2:
+                        ps.append((rng.randrange(m), rng.randrange(m)))
+                    else:
+                        ps.append((value(rng, n), rng.choice([0, 1, m - 1, R - 1, rng.randrange(R)])))
+                yield f'{op} {n} {hx(m)} {hx(k)} {pairs_tok(ps)}'
+            yield f'{op} {n} {hx(m)} {hx(rng.getrandbits(64))} {pairs_tok([(rng.randrange(m), rng.randrange(m)) for _ in range(3)])}'
+    for n in HOOK_WIDTHS:
+        yield from longa_family('c09.hook.longa', n)
+    for n in ([1, 2, 3, 5, 9] if q else [1, 2, 3, 4, 5, 6, 7, 9, 12, 17]):
+        yield from longa_family('c09.hook.blonga', n)
+    # ---- boxed pow_montgomery_form on raw limbs
+    for n in ([1, 2, 3, 5, 9] if q else list(range(1, 10)) + [12, 17]):
+        R = 1 << (64 * n)
+        ms = moduli(rng, n, 1) + pow2_minus_c(rng, n)
+        for m in rng.sample(ms, min(len(ms), 4 if q else 10)):
+            one, k = mparams(n, m)
+            for ne in sorted({1, rng.choice([1, 2, 3])}):
+                ebits = 64 * ne
+                for x in [0, one, m - 1, rng.randrange(m), rng.randrange(R)]:
+                    e = rng.choice(exps(rng, ne, 1))
+                    for bits in rng.sample(sorted({0, 1, 4, 5, 63, 64, ebits, ebits - 1, ebits + 1, rng.randrange(ebits + 1)}), 3):
+                        yield f'c09.hook.bpow {n} {ne} {hx(m)} {hx(one)} {hx(k)} {bits} {hx(x)} {hx(e)}'
+    for n in ([1, 2, 4] if q else [1, 2, 3, 4, 6, 9]):      # both final subtractions needed
+        for (m, x, e) in double_sub_inputs(rng, n, 2 if q else 8):
+            one, k = mparams(n, m)
+            yield f'c09.hook.bpow {n} 1 {hx(m)} {hx(one)} {hx(k)} 8 {hx(x * (1 << (64 * n)) % m)} {hx(e)}'
+
+
+# ---------------------------------------------------------------- nilpotent bases: results that are exactly 0 mod m
+
+Q32 = (1 << 32) - 5                                      # prime
+Q31 = (1 << 31) - 1                                      # prime
+# (modulus, its radical): q^k and (p*q)^2, spanning 1, 2 and 3+ limbs
+NILPOTENT_MODULI = [
+    (9, 3), (27, 3), (25, 5), (125, 5), (49, 7), (343, 7), (225, 15), (3 ** 40, 3), (Q32 ** 2, Q32),
+    (Q32 ** 3, Q32), (3 ** 80, 3), (7 ** 45, 7), ((Q32 * Q31) ** 2, Q32 * Q31), (5 ** 27 * 3 ** 2, 15),
+    (Q32 ** 5, Q32), (3 ** 121, 3), (5 ** 110, 5), ((Q32 * Q31) ** 4, Q32 * Q31), (7 ** 91, 7),
+    (Q32 ** 15, Q32), (3 ** 323, 3), (Q32 ** 31, Q32), (3 ** 646, 3),
+]
+
+
+def nilpotent_index(m, r):
+    """least k with r^k = 0 mod m"""
+    k, p = 1, r % m
+    while p:
+        p, k = p * r % m, k + 1
+    return k
+
+
+def nilpotent_lines(tier, rng):
+    """moduli that are NOT squarefree, non-zero bases divisible by every prime factor of m: base^e = 0 (mod m)
+    for e >= the nilpotency index. The Montgomery-domain accumulator is then a non-zero MULTIPLE of m before the
+    final reduction (exactly m or 2m in the almost-reduced boxed ladder) - the `z >= m` boundary of every
+    conditional subtraction; lincomb sums that are exactly 0 and exactly m likewise."""
+    q = tier == 'quick'
+    consts = set(CONST_MODULI)
+    for (m, r) in NILPOTENT_MODULI:
+        k = nilpotent_index(m, r)
+        need = (m.bit_length() + 63) // 64
+        bs = [r, m - r, (rng.randrange(1, m // r) * r) % m or r, r * r % m or r]
+        es = [k, k + 1, 1 << rng.randrange(k.bit_length(), 64), (1 << 64) - 1, max(k - 1, 1)]
+        widths = [n for n in WIDTHS if n >= need]
+        if q:                                             # the tight width, sometimes a wider one; two of the bases
+            widths = widths[:1] + ([widths[1]] if len(widths) > 1 and rng.randrange(3) == 0 else [])
+            bs = [r, rng.choice(bs[1:])]
+        for n in widths:                                  # fixed (zero high limbs when n > need)
+            kinds = ['dyn'] + (['const'] if (n, m) in consts else [])
+            for kind in kinds:
+                for ne in ([rng.choice(EXP_WIDTHS[n][:2])] if q else EXP_WIDTHS[n]):
+                    if n * ne >= 64:
+                        continue
+                    eb = 64 * ne
+                    for b in bs:
+                        e = rng.choice(es) % (1 << eb)
+                        yield f'c09.pow {kind} {rng.choice("mt")} {n} {hx(m)} {ne} {hx(b)} {hx(e)}'
+                        bits = sorted({max(e.bit_length(), 1), eb, min(eb, e.bit_length() + 1), max(k.bit_length() - 1, 0)})
+                        for kb in (rng.sample(bits, 1) if q else bits):
+                            yield f'c09.powb {kind} {rng.choice("mt")} {n} {hx(m)} {ne} {hx(b)} {hx(e)} {kb}'
+                    # products whose factors multiply to 0 mod m: r^i * r^(k-i), and a nilpotent power times anything
+                    i = rng.randrange(1, k) if k > 1 else 1
+                    ps = [(pow(r, i, m) or r, 1), (pow(r, k - i, m) or r, 1)]
+                    ps2 = [(r, k), (rng.randrange(m), rng.getrandbits(eb)), (m - 1, 1)]
+                    mf = [('arr', ps), ('slice', ps), ('arr', ps2), ('slice', ps2 + [(m - r, k + 1)])]
+                    for form, pp in (rng.sample(mf, 2) if q else mf):
+                        yield f'c09.multi {kind} {form} {n} {hx(m)} {ne} {pairs_tok(pp)}'
+                        yield f'c09.multib {kind} {form} {n} {hx(m)} {ne} {max(k.bit_length(), 1)} {pairs_tok(pp)}'
+        # boxed: the needed precision and wider ones (zero high limbs)
+        for n in sorted({need, min(17, need + rng.randrange(1, 6))} if q else {need, need + 1, min(17, need + rng.randrange(2, 6))}):
+            if n > 17:
+                continue
+            for ne in ([1] if q else [1, 2]):
+                eb = 64 * ne
+                for b in bs:
+                    e = rng.choice(es) % (1 << eb)
+                    yield f'c09.pow boxed m {n} {hx(m)} {ne} {hx(b)} {hx(e)}'
+                    for kb in ([rng.choice([max(e.bit_length(), 1), eb])] if q else sorted({max(e.bit_length(), 1), eb})):
+                        yield f'c09.powb boxed {rng.choice("mt")} {n} {hx(m)} {ne} {hx(b)} {hx(e)} {kb}'
+        # lincomb: sums that are exactly 0 and exactly m (as integers: a*b + (m - a*b mod m)*1), and nilpotent products
+        a, b = rng.randrange(1, m), rng.randrange(1, m)
+        c = (m - a * b % m) % m
+        sums = [[(a, b), (c, 1)], [(r, pow(r, k - 1, m) or r)], [(a, b), (c, 1), (r, pow(r, k - 1, m) or r), (m - 1, 1), (1, 1)],
+                [(m - r, m - r)] * max(k, 2), [(a, b), (m - a, b)]]
+        if q:
+            sums = sums[:2] + [rng.choice(sums[2:])]
+        for n in widths:
+            for t in sums:
+                yield f'c09.lincomb dyn {n} {hx(m)} {pairs_tok(t)}'
+                if (n, m) in consts:
+                    yield f'c09.lincomb const {n} {hx(m)} {pairs_tok(t)}'
+        for n in sorted({need, need + 1}):
+            if n <= 17:
+                for t in sums:
+                    yield f'c09.lincomb boxed {n} {hx(m)} {pairs_tok(t)}'
+
+
 def gen(tier, rng):
+    yield from public_lines(tier, rng)
+    yield from nilpotent_lines(tier, random.Random(rng.getrandbits(32)))
+    # crate-internal functions through crypto_bigint::verif_hooks (emitted last from their own PRNG stream: the
+    # public lines above are the same as before the hooks existed)
+    yield from hook_lines(tier, random.Random(rng.getrandbits(32)))
+
+
+def public_lines(tier, rng):
     q = tier == 'quick'
     # ---- panics / empties the documentation names
     yield 'c09.lincomb dyn 1 f1 -'
